@@ -310,6 +310,9 @@ GapTSNs(c) == IF c.gaps = <<>> THEN {}
                        ghi == MaxF({c.gaps[i][2] : i \in DOMAIN c.gaps})
                    IN {c.cum + k : k \in {j \in glo..ghi : \E i \in DOMAIN c.gaps : j >= c.gaps[i][1] /\ j <= c.gaps[i][2]}}
 
+\* t is named by one of the gap-ack blocks of SACK c (no set is built: the blocks of a garbled SACK can span 65 535 TSNs each)
+InGaps(c, t) == \E i \in DOMAIN c.gaps : t - c.cum >= c.gaps[i][1] /\ t - c.cum <= c.gaps[i][2]
+
 \* --- DATA / I-DATA written by endpoint e
 DataViol(c) ==
   LET e     == c.ep
@@ -538,18 +541,18 @@ TrRx ==
          shuts == {c \in ChunksOfKind(p, {"shutdown"}) : Wellformed(c)}
          cums  == {c.cum : c \in sacks \cup shuts}
          ncum  == IF live /\ cums # {} THEN MaxI(ackCum[to], MaxF(cums)) ELSE ackCum[to]
-         ngap  == IF live THEN (ackGap[to] \cup UNION {GapTSNs(c) : c \in sacks}) ELSE ackGap[to]
+         \* only TSNs the sender really sent are remembered as gap-acked (nothing else is ever asked about)
+         ngap  == IF live THEN (ackGap[to] \cup {t \in DOMAIN ch[to] : \E c \in sacks : InGaps(c, t)}) ELSE ackGap[to]
          newly == {t \in DOMAIN ch[to] : (t <= ncum \/ t \in ngap) /\ ~(t <= ackCum[to] \/ t \in ackGap[to])}
          inits == {c \in ChunksOfKind(p, {"init", "initack"}) : Wellformed(c)}
          \* C10: miss indications. The sender's own view of which chunks are outstanding and not abandoned is taken
          \* from its previous snapshot (at most 64 chunks are listed: beyond that the count is declared incomplete).
          ps    == sn[to]
          sk    == CHOOSE c \in sacks : TRUE
-         gaps  == GapTSNs(sk)
-         top   == IF gaps = {} THEN sk.cum ELSE MaxF(gaps)
+         top   == IF sk.gaps = <<>> THEN sk.cum ELSE sk.cum + MaxF({sk.gaps[i][2] : i \in DOMAIN sk.gaps})
          inFR  == ps.infr /\ ~(ps.frexit > ackCum[to] /\ ps.frexit <= sk.cum)
          listed == {x[1] : x \in {y \in SeqSet(ps.infl) : y[4] = 0 /\ y[5] = 0}}
-         cand  == {t \in listed : t > sk.cum /\ t \notin gaps /\ t \notin ackGap[to]}
+         cand  == {t \in listed : t > sk.cum /\ ~InGaps(sk, t) /\ t \notin ackGap[to]}
          htS   == IF newly = {} THEN sk.cum ELSE MaxF(newly)
          cntS  == IF ~inFR THEN {t \in cand : t < htS} ELSE IF sk.cum > ackCum[to] THEN {t \in cand : t < top} ELSE {}
          cntL  == IF ~inFR \/ sk.cum > ackCum[to] THEN {t \in cand : t < top} ELSE {}
